@@ -33,7 +33,17 @@ type SSTableStreamWriter struct {
 	lastKey []byte
 }
 
-func (writer *SSTableStreamWriter) Open() error {
+func (writer *SSTableStreamWriter) Open() (err error) {
+	// whatever fails below: the files that were opened until then are released again, the callers only Close a writer
+	// whose Open succeeded
+	defer func() {
+		if err != nil {
+			if closeErr := writer.closeFiles(); closeErr != nil {
+				err = errors.Join(err, closeErr)
+			}
+		}
+	}()
+
 	writer.indexFilePath = filepath.Join(writer.opts.basePath, IndexFileName)
 	iWriter, err := rProto.NewWriter(
 		rProto.Path(writer.indexFilePath),
@@ -58,7 +68,6 @@ func (writer *SSTableStreamWriter) Open() error {
 		return fmt.Errorf("error while creating data writer in '%s': %w", writer.opts.basePath, err)
 	}
 
-	// TODO(thomas): if any of these open fails, we should try to at least close the ones we already have opened
 	writer.dataWriter = dWriter
 	err = writer.dataWriter.Open()
 	if err != nil {
@@ -145,7 +154,30 @@ func (writer *SSTableStreamWriter) WriteNext(key []byte, value []byte) error {
 	return nil
 }
 
+// closeFiles closes what Open has opened so far and forgets it
+func (writer *SSTableStreamWriter) closeFiles() (err error) {
+	if writer.indexWriter != nil {
+		err = errors.Join(err, writer.indexWriter.Close())
+		writer.indexWriter = nil
+	}
+	if writer.dataWriter != nil {
+		err = errors.Join(err, writer.dataWriter.Close())
+		writer.dataWriter = nil
+	}
+	if writer.metaDataFile != nil {
+		err = errors.Join(err, writer.metaDataFile.Close())
+		writer.metaDataFile = nil
+	}
+	writer.metaData = nil
+	writer.bloomFilter = nil
+	return err
+}
+
 func (writer *SSTableStreamWriter) Close() (err error) {
+	if writer.indexWriter == nil || writer.dataWriter == nil {
+		// never opened, or Open failed and has released everything already: nothing to close, nothing to write
+		return writer.closeFiles()
+	}
 	err = errors.Join(writer.indexWriter.Close(), writer.dataWriter.Close())
 
 	if writer.opts.enableBloomFilter && writer.bloomFilter != nil {
